@@ -1,6 +1,7 @@
 package main
 
 import (
+	"sync"
 	"fmt"
 	"go/token"
 	"go/types"
@@ -761,11 +762,91 @@ func (f *Frame) summaryCall(instr ssa.Instruction, callee *ssa.Function, args []
 	}
 	f.E.Assumes["effect summary of "+funcKey(callee)+" inferred from its SSA (writes only the heap keys its body and callees store to; result unconstrained)"] = true
 	f.havocSummary(ms, f.E.whoOf(callee), args)
+	for _, wi := range f.E.ifaceWriteParams(callee) {
+		if wi < len(args) {
+			f.havocPointee(args[wi], callee.Params[wi].Type())
+		}
+	}
 	r := f.freshResult(callee.Signature, callName(instr)+".r")
 	if r != nil {
 		f.assumeAllocated(r)
 	}
 	setResult(r)
+}
+
+// ifaceWriteParams: indexes (in the SSA parameter list, receiver first) of the interface-typed
+// parameters of a repository function through which the function writes: the parameter is
+// handed, as it is, to a write position of a trusted effect (json.Unmarshal(data, dest)) or to
+// such a parameter of another repository function.
+var ifaceWriteMemo sync.Map
+
+func (e *Enc) ifaceWriteParams(fn *ssa.Function) []int {
+	if v, ok := ifaceWriteMemo.Load(fn); ok {
+		return v.([]int)
+	}
+	ifaceWriteMemo.Store(fn, []int(nil)) // recursion guard
+	var out []int
+	for pi, prm := range fn.Params {
+		if _, isIface := prm.Type().Underlying().(*types.Interface); !isIface {
+			continue
+		}
+		found := false
+		for _, ref := range *prm.Referrers() {
+			c := callCommonOf(ref)
+			if c == nil || c.IsInvoke() {
+				continue
+			}
+			callee := c.StaticCallee()
+			if callee == nil {
+				continue
+			}
+			for ai, a := range c.Args {
+				if a != ssa.Value(prm) {
+					continue
+				}
+				if isRepoFunc(callee) && len(callee.Blocks) > 0 {
+					for _, wi := range e.ifaceWriteParams(callee) {
+						if wi == ai {
+							found = true
+						}
+					}
+				} else if eff, ok := e.P.Spec.defaultEffect(funcKey(callee), callee); ok {
+					for _, wi := range eff.writes {
+						if wi == ai {
+							found = true
+						}
+					}
+				}
+			}
+		}
+		if found {
+			out = append(out, pi)
+		}
+	}
+	ifaceWriteMemo.Store(fn, out)
+	return out
+}
+
+// boxedPointeeKeys: the heap keys written by a callee that writes through the pointer or slice boxed
+// into the interface value a (a direct conversion at the call site)
+func (e *Enc) boxedPointeeKeys(a ssa.Value, m map[string]*Sort) {
+	at := a.Type()
+	av := a
+	if mi, ok := a.(*ssa.MakeInterface); ok {
+		at = mi.X.Type()
+		av = mi.X
+	}
+	if sl, ok := at.Underlying().(*types.Slice); ok {
+		e.addLeafKeys(m, "M$"+typeKey(sl.Elem()), sl.Elem(), AElem)
+		return
+	}
+	if pt, ok := av.Type().Underlying().(*types.Pointer); ok {
+		if p, k, ok := e.staticAddrKey(av); ok {
+			e.addLeafKeys(m, p, pt.Elem(), k)
+		} else if isStructType(pt.Elem()) {
+			e.addLeafKeys(m, "F$"+typeKey(pt.Elem()), pt.Elem(), AObj)
+		}
+	}
 }
 
 func (f *Frame) canInline(callee *ssa.Function) bool {
@@ -970,6 +1051,14 @@ func (f *Frame) havocPointee(p *Val, pt types.Type) {
 			return
 		}
 		f.E.Assumes["a call writes through a pointer of type "+pt.String()+" whose pointee is not modelled"] = true
+		return
+	}
+	if p.K == VIface && p.Boxed != nil {
+		if p.Boxed.K == VSlice {
+			f.havocElems(p.Boxed)
+		} else {
+			f.havocPointee(p.Boxed, p.Boxed.T)
+		}
 		return
 	}
 	if p.K == VIface {
@@ -1881,6 +1970,11 @@ func (e *Enc) callModKeys(c *ssa.CallCommon, m map[string]*Sort) {
 	}
 	for k, s := range e.calleeModset(callee) {
 		m[k] = s
+	}
+	for _, wi := range e.ifaceWriteParams(callee) {
+		if wi < len(c.Args) {
+			e.boxedPointeeKeys(c.Args[wi], m)
+		}
 	}
 }
 
